@@ -62,9 +62,8 @@ Definition py_get (s : state) (k : pykey) : state * pyres :=
 Definition with_mem (s : state) (m : list particle) (ob : nat) : state :=
   mkS (tcfg s) m (sN s) (sNact s) (sNvar s) (tab s) (nlook s) (tree s) ob.
 
-(* ctypes converts a Python int argument to a C int / uint32_t by keeping its low 32 bits, without any range check
+(* ctypes converts a Python int argument to a uint32_t by keeping its low 32 bits, without any range check
    (values of 2^64 and beyond raise ArgumentError before the call; not modelled) *)
-Definition wrap_int32 (z : Z) : Z := ((z + 2147483648) mod 4294967296 - 2147483648)%Z.
 Definition wrap_uint32 (z : Z) : N := Z.to_N (z mod 4294967296).
 
 Definition of_result (r : result) : pyres := match r with RFail => PRRuntimeError | _ => PRNone end.
@@ -84,7 +83,11 @@ Definition py_step (s : state) (o : pyop) : state * pyres :=
   | PyAdd p => let '(s1, r) := add_op s p in (s1, of_result r)     (* a refused add raises RuntimeError *)
   | PyRemove index hash keep =>
       (* both calls are made when both arguments are given; an error of either surfaces as RuntimeError *)
-      let '(s1, r1) := match index with Some z => remove_idx s (wrap_int32 z) keep | None => (s, RVoid) end in
+      (* since 6478df5 an index that does not fit a C int raises RuntimeError before anything is called
+         (the hash argument is then not looked at either) *)
+      if match index with Some z => negb ((-2147483648 <=? z) && (z <? 2147483648))%Z | None => false end
+      then (s, PRRuntimeError) else
+      let '(s1, r1) := match index with Some z => remove_idx s z keep | None => (s, RVoid) end in
       let '(s2, r2) := match hash with
                        | Some k => match key_hash k with
                                    | Some h => remove_hash s1 h keep
@@ -200,26 +203,16 @@ Proof.
   - inversion H; subst; clear H. split; auto.
 Qed.
 
-(* Corner: Python ints beyond 32 bits.  sim.remove(index=z) hands z to ctypes, which keeps the low 32 bits:
-   an index far out of range can denote a live particle.  "An out-of-range index fails and leaves the
-   simulation unchanged" is therefore FALSE through Simulation.remove: index 2^32 removes particle 0. *)
-Definition one_particle : state := fst (run (init false) [Add (mkP 1 1 false)]).
-Theorem py_remove_big_index_refuted : exists s z s' r,
-  wf s /\ (Z.of_nat (sN s) <= z)%Z /\ py_step s (PyRemove (Some z) None true) = (s', r) /\ r = PRNone /\ sN s' < sN s.
-Proof.
-  exists one_particle, 4294967296%Z. eexists. eexists.
-  split; [split; vm_compute; lia|]. split; [vm_compute; discriminate|].
-  split; [vm_compute; reflexivity|]. split; [reflexivity|vm_compute; lia].
-Qed.
-(* ... it holds for indices that fit a C int *)
-Theorem py_remove_index_rejected_int32 : forall s z keep s' r, wf s ->
-  (-2147483648 <= z < 2147483648)%Z -> (z < 0 \/ Z.of_nat (sN s) <= z)%Z ->
+(* Corner: Python ints of any size as index.  Simulation.remove(index=z) with z outside [0,N) -- however large --
+   raises RuntimeError and changes nothing (the range check in Python catches what a C int cannot hold, the
+   C function the rest) *)
+Theorem py_remove_index_rejected : forall s z keep s' r,
+  (z < 0 \/ Z.of_nat (sN s) <= z)%Z ->
   py_step s (PyRemove (Some z) None keep) = (s', r) -> r = PRRuntimeError /\ s' = s.
 Proof.
-  intros s z keep s' r Hwf Hr Hz H. cbn [py_step] in H.
-  assert (W : wrap_int32 z = z).
-  { unfold wrap_int32. rewrite Z.mod_small by lia. lia. }
-  rewrite W in H. unfold remove_idx in H.
+  intros s z keep s' r Hz H. cbn [py_step] in H.
+  destruct (negb ((-2147483648 <=? z) && (z <? 2147483648))%Z) eqn:E; [inversion H; auto|].
+  unfold remove_idx in H.
   replace ((Z.of_nat (sN s) <=? z) || (z <? 0))%Z with true in H by lia. inversion H; subst. auto.
 Qed.
 
